@@ -53,7 +53,7 @@ def _case(draw):
         req = draw(st.lists(st.sampled_from(sc), min_size=0, max_size=k, unique=True))       # incl. the empty request
         if req and draw(st.sampled_from([False, False, True])):
             req = req + [draw(st.sampled_from(req))]          # a channel may be named twice: it is converted once
-    curve_kind = draw(st.sampled_from(['power', 'power', 'power', 'tanh', 'affine']))
+    curve_kind = draw(st.sampled_from(['power', 'power', 'power', 'tanh', 'affine', 'poly1d', 'partial']))
     if draw(st.integers(0, 7)) == 0:
         # channel names may be numerals: '3', '2', '1' (the name '1' is then not position 1)
         spec['names'] = [str(len(spec['widths']) - j) for j in range(len(spec['widths']))]
@@ -105,11 +105,21 @@ def run_job(job):
                 labels={'curated:%d_events' % job['spec']['n']: 1}, claims=dict(obs.claims), samples=[], complete=True)
 
 
+def _power(x, c, p):
+    return c * np.sign(x) * np.abs(x) ** p
+
+
 def _curve(c, p, kind='power'):
     if kind == 'tanh':          # a saturating curve: maps an infinite reading to a finite value
         return lambda x: c * np.tanh(np.asarray(x, dtype=float) * (p / 500.0))
     if kind == 'affine':
         return lambda x: c * np.asarray(x, dtype=float) + p
+    # curves need not be plain functions: any callable object will do
+    if kind == 'poly1d':
+        return np.poly1d([c, p])                       # c*x + p
+    if kind == 'partial':
+        import functools
+        return functools.partial(_power, c=c, p=p)
     return lambda x: c * np.sign(x) * np.abs(x) ** p
 
 
